@@ -1,13 +1,101 @@
+import os
 HOOK_COMMITS = []
 NOT_APPLICABLE = {}
-TB = ('Trusted: Lean kernel + propext/Classical.choice/Quot.sound; Mathlib definitions; the correspondence check '
-      '(hand-written model tied to /repo by differential testing on generated inputs); ')
+TB = ('Trusted: Lean 4.33 kernel with propext / Classical.choice / Quot.sound only (audited by #print axioms on every registered '
+      'theorem on every run; no sorry / native_decide / own axioms); Mathlib definitions; the hand-written model is tied to /repo by '
+      'the correspondence check (differential testing on generated inputs, bounded by generator coverage). ')
+PT = 'Modelled, not verified: phase-type theory PT1-PT4 (DESIGN.md §3), scipy.linalg.expm ~ exp, IEEE doubles, fixExp ~ exp (self-tested). '
+
+def entry(technique, text, note):
+    return dict(technique=technique, text=text, note=TB + note)
+
 CHECKS = {
- 'C04': dict(
-    technique='Lean 4 proof (lumping of the labelled particle system) + exhaustive model/implementation correspondence',
-    text='Lean theorems about the code model of transit/BFS/alpha (generator shape, absorbing states, lumping); the model is tied '
-         'to the real state spaces by an exhaustive diff of states, every rate in two generic epochs and alpha over the '
-         'bound the property states (n<=5 x <=3 demes x 3 models x 2 spaces; two loci n<=4 x <=2 demes), and the real rows are '
-         'checked against an independent labelled-process oracle.',
-    note=TB + 'PT3 (the structured Lambda-coalescent is the particle system of the Spec) is textbook, not proved.'),
+ 'C01': entry('Lean 4 proof (lumping + Van Loan algebra, headline theorem C01_moments_eq_labelled) + model/implementation correspondence',
+    'Theorem: every moment the code model computes on lineage counts equals the moment of the labelled structured coalescent, for all n, demes, '
+    'models, epochs, orders, any exponential obeying four laws (instantiated by the real matrix exponential); sweep/scatter, regularisation, '
+    'centring proved. The model (transit, BFS, rewards, alpha, accumulate, centring) is run by a compiled driver with a 160-bit fixed-point '
+    'exponential and diffed against the real moments at the tolerances of the statement on ~130 random configurations per run.',
+    PT + 'Numerical accuracy clauses are measured, not proved (partial).'),
+ 'C02': entry('Lean 4 proof (block-counting lumping incl. multiple mergers, SFS assembly) + model/implementation correspondence',
+    'Theorem C02_sfs_eq_labelled: moments on the block-counting chain equal those of the labelled coalescent on typed blocks (all n, all three models); '
+    'padding and covariance assembly proved. Real sfs/fsfs mean, var, cov, corr diffed against the model incl. bins 0 and n.', PT),
+ 'C03': entry('Lean 4 proof (cdf lumping, monotonicity/range from the exponential laws, _update composition, bisection spec) + correspondence',
+    'Theorems: cdf of the code chain = cdf of the labelled chain (1 and 2 loci), 0<=cdf<=1, non-decreasing, sorted sweep and _update are direct '
+    'evaluation also exactly on epoch boundaries, quantile bisection meets its precision. Real cdf/quantile/pdf diffed against the model; '
+    'cdf(0)=0, monotone, range, integral of 1-cdf = mean checked on the real code.',
+    PT + 'Integral identity and pdf (numerical differentiation in the code) are measured (partial).'),
+ 'C04': entry('Lean 4 proof (unbounded lumping theorems for all three state spaces, BFS and rate-matrix correctness) + exhaustive correspondence',
+    'Theorems for every n / deme count / rates: lineage-, block- (Kingman, Beta, Dirac) and two-locus state spaces are exact lumpings of the labelled '
+    'particle system; BFS lists each reachable state once; rows represent the generator, sum to zero, non-negative; absorbing states only migrate. '
+    'Correspondence exhaustive over the bound of the property (489 cases: states, every rate in two generic epochs, alpha) plus an independent '
+    'labelled-process oracle on every real row.', 'PT3 (the coalescent is this particle system) is textbook. '),
+ 'C05': entry('Lean 4 proof on the code model of Demography.epochs (tiling, value in force, lookup, order independence) + correspondence',
+    'Theorems on the model of the epochs generator; kernel-checked counterexamples for the three historic defects. 1500 random event lists per run '
+    '(all event classes, shapes, orders, add_event) diffed epoch by epoch against the model and against an independent Spec; the split orientation '
+    'is a listed known finding (baseline test pins it).', 'Mixed schedules with discretised events are proved per step only (partial). '),
+ 'C06': entry('Lean 4 proof (two-locus lumping, marginal strong lumping for every r, r=0 coincidence) + correspondence',
+    'Theorems: two-locus chain = lumping of the ARG stopped at absorption; each locus is a strong lumping onto the single-locus chain for every r; '
+    'r=0 gives equal cross and second moments. Real joint/marginal moments and covariances diffed against the model; marginals compared with the real '
+    'single-locus results; r=0 corr=1; cov decreasing to 0 along r.', PT + 'r -> infinity is observed along a sequence (partial).'),
+ 'C09': entry('Lean 4 proof (time-rescaling and regularisation laws from the exponential laws; model time scales) + metamorphic correspondence',
+    'Theorems accumVal_time_rescale / cdfVal_time_rescale / accumVal_scale for all k, epochs; time-scale scaling incl. real powers for Beta. Real code '
+    'evaluated at scales 1e-3..1e9 (1e-9 relative when no warning), regularize on/off, model at extreme scales.', PT + 'Float accuracy measured (partial).'),
+ 'C14': entry('Lean 4 proof on definitions REGENERATED from the Python AST on every run (translator) + exact table correspondence',
+    'harness/extract_rates.py regenerates lean/Generated/Rates.lean from coalescent_models.py before each run; GenBridge proves generated = model; '
+    'RatesThm proves rate = C(b,k)*lambda, Beta = Beta-function ratio = Lambda-integral, consistency, non-negativity, limits, Vandermonde outcome sums, '
+    'time scales. Real functions diffed against the exact table (2<=k<=b<=12, all block configurations <=6/7 lineages) and a Lambda-measure oracle.',
+    'Primitives of the translation (scipy beta/comb/binom.pmf) are trusted to mean what they say. '),
+ 'C16': entry('Lean 4 proof (exact matrix algebra of the mutation-configuration formulas, orderings/unfoldings combinatorics) + exact-rational correspondence',
+    'Theorems over any field: code matrix inverse, sum P_i = P_total, words regroup by configuration, mass telescopes, empty configuration = resolvent, '
+    'expected counts, first-step recursion, _unfold / _get_partitions / distinct orderings specs. Real get_mutation_config diffed against the model in '
+    'exact rational arithmetic (1e-10), plus independent numpy oracles for Laplace transform, mass, recursion, folded sum.',
+    'PT4 (probabilistic reading of the resolvent) is textbook; non-negativity of the resolvent is measured (partial). '),
 }
+
+_P = {
+ 'C07': entry('Lean 4 proof (scatter_argsort; sorted sweep = direct evaluation) + pointwise-vs-vector oracle on the real code',
+    'Theorem for every finite time sequence, any order/duplicates: the i-th returned value is the value for the i-th time (instantiated for _accumulate, '
+    'cdf, get_epochs); kernel-checked counterexample for the pre-fix gather. Real vector calls compared with single-time calls for 5 entry points, all '
+    'container types; model argsort vs numpy.', ''),
+ 'C08': entry('Lean 4 proof (relabelling invariance of moments/cdf) + metamorphic correspondence incl. PYTHONHASHSEED sweep',
+    'Theorems perm_accum / perm_cdf / E_reindex; real code under renaming, permuted listing order in every container, omitted unsampled demes; '
+    'subprocess sweep over hash seeds.', 'Equivariance of the code model under deme permutation and hash-seed independence are exercised, not proved (partial). '),
+ 'C10': entry('Lean 4 proof (merge of redundant boundaries, grid refinement, monotonicity, horizon-search spec) + metamorphic oracle on the real code',
+    'Theorems from the exponential laws; real code: redundant change points, coarse vs fine grids, three end-time routes, additivity, monotone raw curves, '
+    'default horizon equals the infinite-horizon value or a warning is logged.', PT),
+ 'C11': entry('Lean 4 proof (reward identities on every block-counting state, linearity of means, both spaces lump one labelled process) + relational oracle',
+    'Theorems sum_sfs_eq_tbl, weighted_sfs_eq_n_height, folded_eq_fold, accumVal_one_linear; real sums/folds/spaces compared at 1e-9 of the raw scale; '
+    'reward vectors diffed exactly against the model.', 'Second-order identities rely on multilinearity proved for k=1 (partial). '),
+ 'C12': entry('Lean 4 proof (deme/locus reward decompositions, linearity, unreachable classes) + relational oracle on the real code',
+    'Theorems deme_rewards_sum_one, deme_prod_sum, tbl_eq_sum_tblLocus, accumVal_congr_closed; real marginal sums, covariance sums, symmetry, PSD, '
+    'empty-deme zeros.', 'PSD needs the probabilistic representation (partial, measured). '),
+ 'C13': entry('Lean 4 proof (kernel intertwining of sample removal for every consistent Lambda, projection and monotonicity theorems) + relational oracle',
+    'Theorems kernel_intertwine, C13_sfs, C13_height, C13_tbl, lam_consistent in full generality; real SFS(n) vs projected SFS(n+1), monotone means, '
+    'rate consistency on the real functions.', PT),
+ 'C15': entry('Lean 4 proof (centring = central moment for all k, symmetry under all permutations, slot additivity) + route/relational oracle',
+    'Theorems accumulate_center_eq(_central_moment), accumulate_perm, uncentred_add; real code: binomial combinations, symmetry, linearity, all documented '
+    'routes pairwise, memo-key separation, PSD/unit diagonal; model values for small cases.', 'PSD measured (partial). '),
+ 'C17': entry('Lean 4 proof (cache state machine refinement: every read returns the matrix of the current epoch) + history-based correspondence',
+    'Theorem C17_refinement on the model of StateSpace caching; real code: random query histories vs fresh objects, cache off, shared state spaces '
+    'through Inference.get_coal, parallel vs sequential.', 'Process-pool scheduling is runtime (partial). '),
+ 'C18': entry('Lean 4 proof on a model with the codec as a parameter + round-trip oracle on the real code', 
+    'Theorems: round trip preserves statistics because statistics depend on the configuration only (C17 refinement), original untouched, idempotent; '
+    'real round trips via string and file for Coalescent, SFS2, Inference.', 'jsonpickle/dill correctness is the parameter law (partial by construction). '),
+ 'C19': entry('Lean 4 proof (best-run selection, merge order independence, bootstrap rows, create_run start values) + invariant oracle on real runs',
+    'Theorems C19_best, C19_merge, C19_bootstrap_rows, C19_create_run with the optimiser as a parameter; real tiny inference problems: invariants, '
+    'reproducibility, cache on/off, merge histories.', 'L-BFGS-B behaviour is a parameter (partial). '),
+ 'C20': entry('Lean 4 proof (validate is complete and sound for the invalid classes) + malformed-input correspondence',
+    'Theorems C20_complete / C20_sound on the model of the constructor checks; real code fed every invalid class by every route and valid neighbours; '
+    'stiff sweep for silent NaN.', 'NaN clause is runtime exploration (partial). '),
+}
+_V = os.path.dirname(os.path.dirname(os.path.abspath(__file__)))
+_reg = {}
+try:
+    import json
+    _reg = json.load(open(os.path.join(_V, 'lean', 'theorems.json')))
+except Exception:
+    pass
+READY = set(open(os.path.join(_V, 'harness', 'ready.txt')).read().split()) if os.path.exists(os.path.join(_V, 'harness', 'ready.txt')) else set()
+for pid, e in _P.items():
+    if pid in READY:
+        CHECKS[pid] = e
